@@ -9,8 +9,10 @@ THOROUGH_SHAPES = QUICK_SHAPES + [(3, 1, 2, 0, 0), (3, 2, 1, 0, 0), (2, 2, 2, 0,
 
 
 def main(tier, seed):
-    c = Check("C10", tier, seed)
+    c = Check("C10", tier, seed, which=("acts", "sqlite"))
     jobs = [("props.store", "roundtrip", (t, "C10")) for t in TYPES]
+    # SQLite backend, row-mapper part: the real create / find / update / delete / exists of acts-store-sqlite on a table model (props/sqlite.py)
+    jobs += [("props.sqlite", "roundtrip", (t, "C10")) for t in TYPES]
     shapes = QUICK_SHAPES if tier == "quick" else THOROUGH_SHAPES
     for sh in shapes:
         heavy = sh[1] * sh[2] >= 2 or (sh[3] and sh[4]) or sh[3] >= 2
@@ -19,9 +21,12 @@ def main(tier, seed):
             jobs.append(("props.store", "query", ("C10", sh, 1500 if tier == "quick" else 20000, (i, parts) if parts > 1 else None)))
     c.run_jobs(jobs)
     return c.finish(
-        rule="obligation = (record type, field) equality after create/update/delete, or (query shape, row) membership / count / order / paging; every obligation is a z3 validity query under the path condition",
+        rule="SQLite row mappers: create / find / update / delete / exists of the six SQLite collections run on the crate's MIR with sea-query and rusqlite replaced by a table model (a built "
+             "statement is the structure the builder calls describe); every field is read back from the column it was written to (validity for symbolic integer fields); counterexamples are "
+             "replayed through the real SQLite plugin. memory backend: obligation = (record type, field) equality after create/update/delete, or (query shape, row) membership / count / order / paging; every obligation is a z3 validity query under the path condition",
         assumptions=[a for a in ASSUME if "QuickJS" not in a] + [
-            "only the in-memory backend is executed; the SQLite backend (row mappers, SQL translation) is not covered by this check: see DESIGN.md section C10",
+            "memory backend: everything; SQLite backend: only the row mappers of create / find / update / delete / exists (sea-query and rusqlite are a table model: the SQL text, SQLite itself and the "
+            "filter / order / paging translation of `query` are NOT covered, nor is 'both backends agree' beyond the mapped fields)",
             "symbolic columns are integers in 0..1000 (0..6 for filter operands); string fields are pairwise distinct constants"],
         bounds=dict(record_types=TYPES, query_shapes="(rows, conds, exprs/cond, order, paging) in %s" % (shapes,), ints="0..1000", operators=6),
         explanation="counterexamples are replayed on the real memory backend through the engine's registered collections (replay op store_query / store_roundtrip)")
